@@ -1,0 +1,138 @@
+//go:build verif
+
+// Contracts for the element-wise and reducing vector operations of this field (comment-only; installed by
+// /verif/gcv gen-contracts). Layer "ring Element": entries are elements of an abstract commutative ring (the
+// Element methods are interpreted by the ring operations their own contracts state, C01). Every identical-slice
+// aliasing of the operands is enumerated (option slicealias). A length mismatch is refused by a documented panic
+// (option panics-allowed): the clauses describe normal returns.
+
+package fp
+
+//@ func addVecGeneric
+//@ tags any
+//@ layer ring Element
+//@ option slicealias
+//@ option panics-allowed
+//@ loop 0
+//@ + invariant[prefix] 0 <= i && i <= len(a) && len(b) == len(a) && len(res) == len(a) && forall(j, 0, i, res[j] == old(a[j]) + old(b[j])) && forall(j, i, len(a), a[j] == old(a[j]) && b[j] == old(b[j]))
+//@ ensures[length] len(a) == len(b) && len(a) == len(res)
+//@ ensures[value] forall(j, 0, len(a), res[j] == old(a[j]) + old(b[j]))
+//@ modifies res
+//@ end
+
+//@ func subVecGeneric
+//@ tags any
+//@ layer ring Element
+//@ option slicealias
+//@ option panics-allowed
+//@ loop 0
+//@ + invariant[prefix] 0 <= i && i <= len(a) && len(b) == len(a) && len(res) == len(a) && forall(j, 0, i, res[j] == old(a[j]) - old(b[j])) && forall(j, i, len(a), a[j] == old(a[j]) && b[j] == old(b[j]))
+//@ ensures[length] len(a) == len(b) && len(a) == len(res)
+//@ ensures[value] forall(j, 0, len(a), res[j] == old(a[j]) - old(b[j]))
+//@ modifies res
+//@ end
+
+//@ func mulVecGeneric
+//@ tags any
+//@ layer ring Element
+//@ option slicealias
+//@ option panics-allowed
+//@ loop 0
+//@ + invariant[prefix] 0 <= i && i <= len(a) && len(b) == len(a) && len(res) == len(a) && forall(j, 0, i, res[j] == old(a[j]) * old(b[j])) && forall(j, i, len(a), a[j] == old(a[j]) && b[j] == old(b[j]))
+//@ ensures[length] len(a) == len(b) && len(a) == len(res)
+//@ ensures[value] forall(j, 0, len(a), res[j] == old(a[j]) * old(b[j]))
+//@ modifies res
+//@ end
+
+//@ func scalarMulVecGeneric
+//@ tags any
+//@ layer ring Element
+//@ option slicealias
+//@ option panics-allowed
+//@ loop 0
+//@ + invariant[prefix] 0 <= i && i <= len(a) && len(res) == len(a) && *b == old(*b) && forall(j, 0, i, res[j] == old(a[j]) * old(*b)) && forall(j, i, len(a), a[j] == old(a[j]))
+//@ ensures[length] len(a) == len(res)
+//@ ensures[value] forall(j, 0, len(a), res[j] == old(a[j]) * old(*b))
+//@ modifies res
+//@ end
+
+//@ func sumVecGeneric
+//@ tags any
+//@ layer ring Element
+//@ smt (define-fun-rec vsum ((a (Array Int Int)) (n Int)) Int (ite (<= n 0) 0 (+ (select a (- n 1)) (vsum a (- n 1)))))
+//@ smt-fun vsum Int
+//@ loop 0
+//@ + invariant[prefix] 0 <= i && i <= len(a) && *res == old(*res) + ufint_vsum(a, i)
+//@ ensures[value] *res == old(*res) + ufint_vsum(a, len(a))
+//@ modifies res
+//@ end
+
+//@ func innerProductVecGeneric
+//@ tags any
+//@ layer ring Element
+//@ option slicealias
+//@ option panics-allowed
+//@ smt (define-fun-rec vdot ((a (Array Int Int)) (b (Array Int Int)) (n Int)) Int (ite (<= n 0) 0 (+ (* (select a (- n 1)) (select b (- n 1))) (vdot a b (- n 1)))))
+//@ smt-fun vdot Int
+//@ loop 0
+//@ + invariant[prefix] 0 <= i && i <= len(a) && len(b) == len(a) && *res == old(*res) + ufint_vdot(a, b, i)
+//@ ensures[length] len(a) == len(b)
+//@ ensures[value] *res == old(*res) + ufint_vdot(a, b, len(a))
+//@ modifies res
+//@ end
+
+//@ func Vector.Add
+//@ tags purego
+//@ layer ring Element
+//@ option slicealias
+//@ option panics-allowed
+//@ ensures[value] len(a) == len(b) && len(a) == len(*vector) && forall(j, 0, len(a), (*vector)[j] == old(a[j]) + old(b[j]))
+//@ modifies *vector
+//@ end
+
+//@ func Vector.Sub
+//@ tags purego
+//@ layer ring Element
+//@ option slicealias
+//@ option panics-allowed
+//@ ensures[value] len(a) == len(b) && len(a) == len(*vector) && forall(j, 0, len(a), (*vector)[j] == old(a[j]) - old(b[j]))
+//@ modifies *vector
+//@ end
+
+//@ func Vector.Mul
+//@ tags purego
+//@ layer ring Element
+//@ option slicealias
+//@ option panics-allowed
+//@ ensures[value] len(a) == len(b) && len(a) == len(*vector) && forall(j, 0, len(a), (*vector)[j] == old(a[j]) * old(b[j]))
+//@ modifies *vector
+//@ end
+
+//@ func Vector.ScalarMul
+//@ tags purego
+//@ layer ring Element
+//@ option slicealias
+//@ option panics-allowed
+//@ ensures[value] len(a) == len(*vector) && forall(j, 0, len(a), (*vector)[j] == old(a[j]) * old(*b))
+//@ modifies *vector
+//@ end
+
+//@ func Vector.Sum
+//@ tags purego
+//@ layer ring Element
+//@ smt (define-fun-rec vsum ((a (Array Int Int)) (n Int)) Int (ite (<= n 0) 0 (+ (select a (- n 1)) (vsum a (- n 1)))))
+//@ smt-fun vsum Int
+//@ ensures[value] res == ufint_vsum(*vector, len(*vector))
+//@ modifies nothing
+//@ end
+
+//@ func Vector.InnerProduct
+//@ tags purego
+//@ layer ring Element
+//@ option slicealias
+//@ option panics-allowed
+//@ smt (define-fun-rec vdot ((a (Array Int Int)) (b (Array Int Int)) (n Int)) Int (ite (<= n 0) 0 (+ (* (select a (- n 1)) (select b (- n 1))) (vdot a b (- n 1)))))
+//@ smt-fun vdot Int
+//@ ensures[value] len(*vector) == len(other) && res == ufint_vdot(*vector, other, len(other))
+//@ modifies nothing
+//@ end
